@@ -1,6 +1,6 @@
 (* C19: property theorems (statements in full; proofs in Proofs*.v). *)
 From Coq Require Import List NArith ZArith Bool.
-From C19 Require Import Gen Model Spec ProofsPtr ProofsPatch ProofsPatchExact ProofsParse ProofsNum RTNum ProofsDouble RTStr RTDefs RTMain RTFinal RTDouble ProofsPatchDoc.
+From C19 Require Import Gen Model Spec ProofsPtr ProofsPatch ProofsPatchExact ProofsParse ProofsNum ProofsEq RTNum ProofsDouble RTStr RTDefs RTMain RTFinal RTDouble ProofsPatchDoc.
 Import ListNotations.
 Local Open Scope N_scope.
 
@@ -53,6 +53,33 @@ Example c19_uint64_max_is_not_minus_one :
   jv_eqb (JUInt64 18446744073709551615) (JInt64 (-1)) = false /\
   num_eq_cpp (JInt (-1)) (JUInt64 18446744073709551615) = false /\
   num_lt_cpp (JInt64 (-9223372036854775808)) (JUInt64 9223372036854775808) = true.
+Proof. vm_compute. repeat split. Qed.
+
+(* Value-tree equality (JsonValue::operator==, used by tree comparison and by the patch "test"
+   operation) is structural: two arrays are equal iff they have the same length and equal elements
+   position by position; two objects are equal iff they have the same member NAMES (in std::map order)
+   and equal values name by name; an array, an object and a leaf are never equal to one another.
+   With c19_int_equality for the integer leaves this fixes equality completely (doubles excepted). *)
+Theorem c19_tree_equality :
+  (forall a b : list jv,
+     jv_eqb (JArr a) (JArr b) = true <-> Forall2 (fun x y => jv_eqb x y = true) a b) /\
+  (forall a b : list (list N * jv),
+     jv_eqb (JObj a) (JObj b) = true <->
+     Forall2 (fun p q => fst p = fst q /\ jv_eqb (snd p) (snd q) = true) a b) /\
+  (forall a b : list (list N * jv), jv_eqb (JObj a) (JObj b) = true -> map fst a = map fst b) /\
+  (forall (a : list jv) (m : list (list N * jv)) (v : jv),
+     jv_eqb (JArr a) (JObj m) = false /\ jv_eqb (JObj m) (JArr a) = false /\
+     (is_container v = false -> jv_eqb (JArr a) v = false /\ jv_eqb v (JArr a) = false /\
+                                 jv_eqb (JObj m) v = false /\ jv_eqb v (JObj m) = false)).
+Proof.
+  split; [exact jv_eqb_arr|]. split; [exact jv_eqb_obj|]. split; [exact jv_eqb_obj_keys|exact jv_eqb_kinds].
+Qed.
+Print Assumptions c19_tree_equality.
+Example c19_member_names_matter :
+  jv_eqb (JObj [([109;97;120], JUInt 10); ([109;105;110], JUInt 1)])
+         (JObj [([99;101;105;108;105;110;103], JUInt 10); ([102;108;111;111;114], JUInt 1)]) = false /\
+  jv_eqb (JArr [JUInt 1; JUInt 2]) (JArr [JUInt 2; JUInt 1]) = false /\
+  jv_eqb (JArr [JArr [JUInt 1]; JUInt 2]) (JArr [JUInt 1; JArr [JUInt 2]]) = false.
 Proof. vm_compute. repeat split. Qed.
 
 (* The message texts and JSON Patch keywords the model and the correspondence use are REGENERATED on
